@@ -32,7 +32,7 @@ class ThreadsProperty:
                         v += 1
                     sc["threads"].append(dict(name="T%d" % t, ops=ops))
             sc["instr"] = r.choice((100, 400, 2000, 2000))
-            sc["instr_target"] = r.choice((0, 30, 30, 100, 100, 300))      # a seeded set of call sites is pre-empted at their first entries
+            sc["instr_target"] = r.choice((0, 30, 100, 300, -3000, -3000, -8000))      # a seeded set of call sites is pre-empted at their first entries
         return dict(sc=sc)
 
     def execute(self, case, fresh):
